@@ -157,7 +157,7 @@ theorem opsOf_length (w : Which) (evs : List Ev) : (opsOf w evs).length ≤ evs.
 
 /-- `decodePoints_encodePoints` with the stream size conditions replaced by a bound on the
     input -/
-theorem decodePoints_encodePoints_bounded (part : Partition) (hpart : PartSpec part)
+theorem decodePoints_encodePoints_bounded_v (part : Partition) (hpart : PartSpec part)
     (tab : List (Nat × Nat)) (hd : DivOK tab) (zpr : Nat → Nat → Nat)
     (level dim bitLength maxPoints : Nat) (pts : List (List Nat)) (rest : Bytes) (s : DSt)
     (hdim : 1 ≤ dim) (hbl : bitLength ≤ 32) (hsel : level = 6 → dim ≤ 16)
@@ -166,7 +166,7 @@ theorem decodePoints_encodePoints_bounded (part : Partition) (hpart : PartSpec p
     (hsz : 32 * ((2 * dim + 3) * (pts.length * (bitLength * dim + 1) + 1)) + 3 < 2^32)
     (hs : s.rest = encodePoints part tab zpr level dim bitLength pts ++ rest) :
     ∃ pts' s', decodePoints level dim maxPoints s = (some (pts.length, pts'), s') ∧ s'.rest = rest ∧
-      pts'.Perm pts := by
+      pts'.Perm pts ∧ s'.version = s.version := by
   have hn : pts.length < 2^32 := by
     have h1 : pts.length ≤ pts.length * (bitLength * dim + 1) := Nat.le_mul_of_pos_right _ (by omega)
     have h2 : pts.length * (bitLength * dim + 1) + 1 ≤ (2 * dim + 3) * (pts.length * (bitLength * dim + 1) + 1) :=
@@ -178,8 +178,8 @@ theorem decodePoints_encodePoints_bounded (part : Partition) (hpart : PartSpec p
     omega
   by_cases hne : pts = []
   · subst hne
-    obtain ⟨s', e1, e2⟩ := decodePoints_encodePoints_nil part tab zpr level dim bitLength maxPoints rest s hbl hs
-    exact ⟨[], s', e1, e2, List.Perm.refl _⟩
+    obtain ⟨s', e1, e2, e3⟩ := decodePoints_encodePoints_nil part tab zpr level dim bitLength maxPoints rest s hbl hs
+    exact ⟨[], s', e1, e2, List.Perm.refl _, e3⟩
   · generalize hP : (⟨dim, bitLength, level == 6, pts.length⟩ : Params) = P
     have hPd : P.dim = dim := by rw [← hP]
     have hPb : P.bitLength = bitLength := by rw [← hP]
@@ -207,7 +207,23 @@ theorem decodePoints_encodePoints_bounded (part : Partition) (hpart : PartSpec p
       have b2 := opsOf_length .num (encodeInternal part P pts)
       omega
     rw [← hP] at hbits hcnt
-    exact decodePoints_encodePoints part hpart tab hd zpr level dim bitLength maxPoints pts rest s hdim hbl
+    exact decodePoints_encodePoints_v part hpart tab hd zpr level dim bitLength maxPoints pts rest s hdim hbl
       hsel hd32 hpts hn hmax hbits hcnt hs
+
+/-- `decodePoints_encodePoints` with the stream size conditions replaced by a bound on the
+    input -/
+theorem decodePoints_encodePoints_bounded (part : Partition) (hpart : PartSpec part)
+    (tab : List (Nat × Nat)) (hd : DivOK tab) (zpr : Nat → Nat → Nat)
+    (level dim bitLength maxPoints : Nat) (pts : List (List Nat)) (rest : Bytes) (s : DSt)
+    (hdim : 1 ≤ dim) (hbl : bitLength ≤ 32) (hsel : level = 6 → dim ≤ 16)
+    (hpts : ∀ p ∈ pts, p.length = dim ∧ ∀ i, i < dim → p.getD i 0 < 2^bitLength)
+    (hmax : pts.length ≤ maxPoints)
+    (hsz : 32 * ((2 * dim + 3) * (pts.length * (bitLength * dim + 1) + 1)) + 3 < 2^32)
+    (hs : s.rest = encodePoints part tab zpr level dim bitLength pts ++ rest) :
+    ∃ pts' s', decodePoints level dim maxPoints s = (some (pts.length, pts'), s') ∧ s'.rest = rest ∧
+      pts'.Perm pts := by
+  obtain ⟨pts', s', h1, h2, h3, _⟩ := decodePoints_encodePoints_bounded_v part hpart tab hd zpr level dim
+    bitLength maxPoints pts rest s hdim hbl hsel hpts hmax hsz hs
+  exact ⟨pts', s', h1, h2, h3⟩
 
 end Draco.Kd
